@@ -163,7 +163,7 @@ __CPROVER_requires(__CPROVER_is_fresh(url, sizeof(nng_url)) && URL_ZEROED(url))
 __CPROVER_requires(g_n < URL_STR_MAX && __CPROVER_is_fresh(raw, g_n + 1) && raw[g_n] == 0)
 __CPROVER_assigns(*url, g_alloc_ok, g_alloc_refused, g_free_calls)
 __CPROVER_ensures(RV == NNG_OK || RV == NNG_EINVAL || RV == NNG_ENOTSUP || RV == NNG_ENOMEM)
-__CPROVER_ensures(RV != NNG_OK ==> (url->u_bufsz == 0 && (g_alloc_ok - OLD(g_alloc_ok)) == (g_free_calls - OLD(g_free_calls))))
+__CPROVER_ensures(RV != NNG_OK ==> (url->u_bufsz == 0 && ((g_alloc_ok == OLD(g_alloc_ok) && g_free_calls == OLD(g_free_calls)) || (g_alloc_ok == OLD(g_alloc_ok) + 1 && g_free_calls == OLD(g_free_calls) + 1))))
 __CPROVER_ensures(RV == NNG_ENOMEM ==> g_alloc_refused == OLD(g_alloc_refused) + 1)
 __CPROVER_ensures(RV != NNG_ENOMEM ==> g_alloc_refused == OLD(g_alloc_refused))
 __CPROVER_ensures(RV == NNG_OK ==> g_free_calls == OLD(g_free_calls))
@@ -192,6 +192,19 @@ __CPROVER_ensures((RV == NNG_OK && (*urlp)->u_bufsz == 0) ==> (g_alloc_ok == OLD
 __CPROVER_ensures((RV == NNG_OK && (*urlp)->u_bufsz != 0) ==> (g_alloc_ok == OLD(g_alloc_ok) + 2 && __CPROVER_is_fresh((*urlp)->u_buffer, (*urlp)->u_bufsz)))
 COVER(RV == NNG_ENOMEM && g_alloc_ok == OLD(g_alloc_ok) + 1)
 COVER(RV == NNG_EINVAL && g_free_calls == OLD(g_free_calls) + 2)
+    /* clang-format on */
+    ;
+
+/* ---- nni_url_default_port: EXACT value (modules/url only bounds the range).
+ * Any NUL-terminated scheme string of any length; loops are bounded by the
+ * table (12 entries, names <= 6 characters). */
+uint16_t nni_url_default_port(const char *scheme)
+    /* clang-format off */
+__CPROVER_requires(g_n < URL_STR_MAX && __CPROVER_is_fresh(scheme, g_n + 1) && scheme[g_n] == 0)
+__CPROVER_assigns()
+__CPROVER_ensures(RV == UP_DEFPORT(scheme))
+COVER(RV == 443 && g_n == 4)
+COVER(RV == 0 && g_n == 5 && scheme[0] == 'h')
     /* clang-format on */
     ;
 
